@@ -12,7 +12,7 @@ from aiokafka.structs import OffsetAndMetadata, TopicPartition
 from env import simkafka, vloop
 from . import txnsim
 
-ALPHABET = ["begin", "send0", "send1", "send_offsets", "commit", "abort", "ctx_ok", "ctx_exc"]
+ALPHABET = ["begin", "send0", "send1", "send_offsets", "commit", "abort", "ctx_ok", "ctx_exc", "ctx_ok_await"]
 
 
 class _Boom(Exception):
@@ -38,7 +38,7 @@ class RefModel:
             return ("ok", "READY") if s == "IN_TXN" else ("raises", s)
         if call == "abort":
             return ("ok", "READY") if s in ("IN_TXN", "ABORTABLE") else ("raises", s)
-        if call == "ctx_ok":
+        if call in ("ctx_ok", "ctx_ok_await"):
             return ("ok", "READY") if s == "READY" else ("raises", s)
         if call == "ctx_exc":
             # begin, body raises, abort; the body's exception propagates
@@ -66,6 +66,14 @@ async def _do(p, call, n):
         async with p.transaction():
             await p.send("t", b"v%d" % n, key=b"k%d" % n, partition=0)
             raise _Boom()
+    elif call == "ctx_ok_await":
+        # the application awaits the delivery itself and handles a failure; the block exits normally
+        async with p.transaction():
+            fut = await p.send("t", b"v%d" % n, key=b"k%d" % n, partition=0)
+            try:
+                await asyncio.wait_for(asyncio.shield(fut), timeout=5)
+            except (E.KafkaError, asyncio.TimeoutError):
+                pass
 
 
 def s1_programs(src, length, fault_kinds, max_fault_requests):
@@ -98,21 +106,28 @@ def s1_programs(src, length, fault_kinds, max_fault_requests):
                 except (E.KafkaError, E.IllegalOperation, AssertionError, ValueError) as e:
                     got = "raises"
                     err = e
+                except (asyncio.InvalidStateError, AttributeError, TypeError, KeyError, RuntimeError) as e:
+                    got = f"internal error {type(e).__name__}"
+                    err = e
                 await asyncio.sleep(0.02)  # background transactional requests of this call complete
                 new = faults.delivered[seen_faults:]
                 seen_faults = len(faults.delivered)
                 newcls = {c for c, _, _ in new}
                 if "fatal" in newcls:
-                    # the fatal reply arrived during/after this call: the call may have failed with it
-                    ok = got in ("raises", want) or (want == "boom" and got in ("boom", "raises"))
+                    # the fatal reply arrived during/after this call
+                    if call in ("commit", "send_offsets", "ctx_ok", "ctx_ok_await") and want == "ok":
+                        # these calls wait for the transactional requests: they cannot succeed after it
+                        ok = got == "raises"
+                    else:
+                        ok = got in ("raises", want) or (want == "boom" and got in ("boom", "raises"))
                     model.state = "FATAL"
                 elif "abortable" in newcls:
-                    if call in ("commit", "send_offsets", "ctx_ok"):
+                    if call in ("commit", "send_offsets", "ctx_ok", "ctx_ok_await"):
                         ok = got in ("raises", want)
+                        if call == "commit" and pre == "IN_TXN":
+                            ok = got == "raises" and isinstance(err, (E.TopicAuthorizationFailedError, E.GroupAuthorizationFailedError))
                         if got == "raises":
-                            model.state = "ABORTABLE" if call != "ctx_ok" else "READY"  # the context aborts on error
-                            if call == "ctx_ok":
-                                model.state = "ABORTABLE_OR_READY"
+                            model.state = "ABORTABLE" if not call.startswith("ctx_ok") else "ABORTABLE_OR_READY"
                         else:
                             model.state = nxt
                     elif call in ("abort", "ctx_exc"):
@@ -129,6 +144,11 @@ def s1_programs(src, length, fault_kinds, max_fault_requests):
                     was_abortable = was_abortable or model.state == "ABORTABLE"
                 else:
                     ok = got == want
+                    if ok and call == "commit" and pre == "ABORTABLE":
+                        # commit re-raises the stored abortable error
+                        ok = isinstance(err, (E.TopicAuthorizationFailedError, E.GroupAuthorizationFailedError))
+                        if not ok:
+                            got = f"raises {type(err).__name__} instead of the stored authorization error"
                     if ok:
                         model.state = nxt
                 obs.append(dict(i=i, call=call, pre=pre, want=want, got=got, ok=ok, new_faults=[str(x) for x in new],
